@@ -315,12 +315,14 @@ pub fn run_random(rec: &mut Rec, seed: u64, run: u64, nops: usize) {
             match step {
                 0 | 1 => { let a = 1000 + r.gen_range(0..1000u128); p.step(rec, run, step, "open", step, json!({"amt": s(a), "allow": s(a), "dur": camp_dur.to_string(), "recv": USERS[step]})); continue; }
                 2 => { p.step(rec, run, step, "openflow", 2, json!({"asset": camp_asset, "amt": s(big), "funds": flow_funds(camp_asset, big), "len": 30, "start": 0})); continue; }
-                3 | 4 | 5 => { p.step(rec, run, step, "newepoch", 0, json!({})); continue; }
+                3 | 4 => { p.step(rec, run, step, "newepoch", 0, json!({})); continue; }
+                5 => { p.step(rec, run, step, "snapshot", 2, json!({})); continue; }
                 6 => { p.step(rec, run, step, "claim", 0, json!({})); continue; }
                 7 => { let len = r.gen_range(4..10u64); let back = r.gen_range(1..4u64);
                        p.step(rec, run, step, "openflow", 2, json!({"asset": camp_asset, "amt": s(big - 7), "funds": flow_funds(camp_asset, big - 7), "len": len, "start": back})); continue; }
                 _ if r.gen_range(0..10) < 8 => {
-                    match (step - 8) % 3 { 0 => p.step(rec, run, step, "newepoch", 0, json!({})), k => p.step(rec, run, step, "claim", k - 1, json!({})) };
+                    // a claim needs the epoch's weight snapshot, which anybody may take
+                    match (step - 8) % 4 { 0 => p.step(rec, run, step, "newepoch", 0, json!({})), 1 => p.step(rec, run, step, "snapshot", 2, json!({})), k => p.step(rec, run, step, "claim", k - 2, json!({})) };
                     continue;
                 }
                 _ => {}
